@@ -66,7 +66,7 @@ def run(ctx):
             if L.cmp_is(cd, lambda e: e.mentions_call(r'::len$') is not None, 'Le', lambda e: _cv(prog, e) is not None and _cv(prog, e) <= 512):
                 oks = True
     ctx.ob('SIZE-GATE', 'record-serialize', oks, se.where(), 'DhtRecord::serialize returns Ok only for encodings of at most 512 bytes: %s' % oks)
-    hr = prog.async_body(ENG + '::handle_request')
+    hr = prog.inl(ENG + '::handle_request', keep=r'KademliaRoutingTable::find_closest_nodes$')
     okc = False
     from props import c02 as C02
     for cs in hr.calls(r'::find_closest_nodes$'):
